@@ -328,7 +328,28 @@ def _check_tree(case):
         cmp_matrix("G", S.G, G)
         cmp_matrix("J", S.J, J)
     col.done()
-    return {"labels": ["judged"] + (["context_function"] if has_ctx else []), "nontrivial": True}
+    # ---- 3. the same point as the second of two parameter variants -----------------------------
+    # (the first variant sits at another point; the matrices of the second must be those just judged)
+    labels_v = []
+    try:
+        m2 = ir.Simultaneous.from_string(src, linear=False, context=dict(xt.CONTEXT))
+        m2.alter_num_variants(2)
+        other = {k: ((0.8 * v + 0.15) if k in vn or k == "m0" else (v + 0.25)) for k, v in assign.items()}
+        m2.assign(**{k: [other[k], v] for k, v in assign.items()})
+        S2 = m2.systemize()
+    except Exception:  # noqa: BLE001 - the other point may be inadmissible for a drawn function: nothing to compare
+        labels_v.append("two_variant_systemize_not_available")
+    else:
+        if col.check(isinstance(S2, (list, tuple)) and len(S2) == 2, "systemize:variants:count", lambda: f"systemize() of a two-variant model returned {type(S2).__name__}"):
+            for name in ("A", "B", "C", "D", "F", "G", "H", "J"):
+                a_, b_ = np.asarray(getattr(S2[1], name), dtype=float), np.asarray(getattr(S, name), dtype=float)
+                ok_ = a_.shape == b_.shape and bool(np.allclose(a_, b_, rtol=1e-12, atol=1e-14, equal_nan=True))
+                col.check(ok_, "systemize:variants:second_variant_differs",
+                          lambda: f"{name} of the second variant differs from the single-variant model at the same point "
+                                  f"(max {float(np.nanmax(np.abs(a_ - b_))) if a_.shape == b_.shape and a_.size else 'shape'})\n{src}")
+            labels_v.append("two_variant_systemize_compared")
+        col.done()
+    return {"labels": ["judged"] + labels_v + (["context_function"] if has_ctx else []), "nontrivial": True}
 
 
 # ---------------------------------------------------------------------------
